@@ -3,7 +3,7 @@ from symx.api import H
 from spec import enc
 from spec import elf_layout as L
 from spec import registry as REG
-from harness.elfkit import Image
+from harness.elfkit import Image, open_elf
 
 PROPERTY = 'C01'
 ASSUMPTIONS = [
@@ -219,7 +219,7 @@ def h_tables(ctx):
     shsz, phsz = L.sizeof('SHDR', cls), L.sizeof('PHDR', cls)
     data = img.build(shentsize=shsz + cfg.get('shslack', 0), phentsize=(phsz + cfg.get('phslack', 0)) if cfg['nseg'] else None,
                      gap=cfg.get('gap', 0), tail=cfg.get('tail', 0), **eh)
-    elf = EF.ELFFile(ctx.stream(data))
+    elf = open_elf(ctx, data)
     ctx.outcome('ok')
     nsec_total = cfg['nsec'] + (2 if named else 1)
     if variant == 'xnum_sh':
@@ -297,7 +297,7 @@ def h_many_sections(ctx):
     img.sections[0]['sh_link'] = stridx
     img.sections[0]['sh_size'] = n + 1
     data = img.build(e_shstrndx=0xffff, e_shnum=0)
-    elf = EF.ELFFile(ctx.stream(data))
+    elf = open_elf(ctx, data)
     ctx.outcome('ok')
     if cfg.get('links_first'):
         _many_links(ctx, elf)
@@ -388,7 +388,7 @@ def h_kinds(ctx):
         w = lambda v: enc.enc_int(v, 4, little)
         content = (w(1) + w(1) + w(0) + w(0)) if t == 5 else (w(1) + w(1) + w(1) + w(0) + [0] * (cls // 8) + w(0) + [0] * 8)
     data = _kind_image(ctx, cls, little, machine, code, name=name, link=link, content=content)
-    elf = EF.ELFFile(ctx.stream(data))
+    elf = open_elf(ctx, data)
     sec = elf.get_section(3)
     ctx.outcome('ok')
     ctx.check_eq('kind/%s/%s' % (t if t == 'other' else hex(t), machine), type(sec).__name__, want)
@@ -405,7 +405,7 @@ def h_seg_kinds(ctx):
     ctx.assume(t != 2)
     off = img.blob([0x2f, 0x6c, 0])
     img.segment(p_type=t, p_offset=off, p_filesz=3, p_memsz=3)
-    elf = EF.ELFFile(ctx.stream(img.build()))
+    elf = open_elf(ctx, img.build())
     seg = elf.get_segment(0)
     ctx.outcome('ok')
     want = ctx.ite(t == 3, 'InterpSegment', ctx.ite(t == 4, 'NoteSegment', 'Segment'))
@@ -431,7 +431,7 @@ def h_lookup(ctx):
         img.section('', sh_type=1, sh_name=o, sh_offset=0x40 + i)
     stridx = img.section('', sh_type=3, sh_name=4, sh_offset=noff, sh_size=len(NAMETAB))
     data = img.build(e_shstrndx=stridx)
-    elf = EF.ELFFile(ctx.stream(data))
+    elf = open_elf(ctx, data)
     if cfg.get('warm'):
         elf.has_section('zzz')
     secs = ctx.walk(lambda: elf.iter_sections())
@@ -472,7 +472,7 @@ def h_long_names(ctx):
     for i, nm in enumerate(names):
         img.section(nm, sh_type=1, sh_offset=0x40 + i)
     img.add_shstrtab()
-    elf = EF.ELFFile(ctx.stream(img.build()))
+    elf = open_elf(ctx, img.build())
     ctx.outcome('ok')
     ctx.check_eq('long-names/names', [s.name for s in ctx.walk(lambda: elf.iter_sections())], [''] + names + ['.shstrtab'])
     for i, nm in enumerate(names):
